@@ -994,9 +994,13 @@ func c18Instances(add func(*Instance), thorough bool) {
 		P("anb", 1, "ane", 2, "akeys", 0),
 		P("anb", 2, "ane", 1, "akeys", 0),
 		P("anb", 2, "ane", 2, "akeys", 2, "aopt", 1),
+		P("anb", 1, "ane", 0, "akeys", 0, "afour", 1),
 	}
 	for _, sh := range shapes {
 		for rd := 0; rd <= 2; rd++ {
+			if sh["afour"] == 1 && rd > 0 {
+				continue
+			}
 			add(&Instance{Pkg: "roaring64", Func: "VerifC18RoundTrip", Params: with(sh, "rd", rd, "wr", rd, "tail", 2, "xm", -1)})
 			if sh["anb"] > 0 {
 				add(&Instance{Pkg: "roaring64", Func: "VerifC18RoundTrip", Params: with(sh, "rd", rd, "wr", 0, "prefix", 1, "xm", -1)})
